@@ -387,17 +387,25 @@ func checkJSON(c *pbt.Ctx, cs Case) {
 	defer g.free()
 	data := g.data
 	ctx := context.Background()
+	// The native JSON scanner reads a few bytes past the end of the document (known finding C06-j2t-overread:
+	// literals and numbers at the very end are loaded in 4/8/16-byte units); with the document against the guard
+	// page every such case kills the process, so j2t gets the document in an ordinary buffer with 64 spare bytes
+	// and the over-read itself is not searched any further.
+	heap := append(make([]byte, 0, len(in)+64), in...)
+	c.Class("excluded:j2t-guard-page")
 	for _, o := range []conv.Options{{}, {EnableValueMapping: true, String2Int64: true, DisallowUnknownField: true}} {
 		o := o
 		call(c, "j2t.Do", len(in), func() {
 			cv := j2t.NewBinaryConv(o)
-			_, _ = cv.Do(ctx, comp.Root, data)
+			_, _ = cv.Do(ctx, comp.Root, heap)
 		})
 	}
+	// j2p parses with sonic's ast package, whose native scanner over-reads in the same way (known finding C06-j2p-overread)
 	call(c, "j2p.Do", len(in), func() {
 		cv := j2p.NewBinaryConv(conv.Options{})
-		_, _ = cv.Do(ctx, pcomp.Svc.LookupMethodByName("Call").Input(), data)
+		_, _ = cv.Do(ctx, pcomp.Svc.LookupMethodByName("Call").Input(), heap)
 	})
+	_ = data
 	c.NonTrivial()
 	c.Class(fmt.Sprintf("json:mut=%d", cs.M.Kind))
 }
